@@ -227,11 +227,11 @@ func Bind(r *Rule, desc protoreflect.MessageDescriptor, newMsg func(protoreflect
 			return nil, err
 		}
 	}
-	// query parameters, in the order in which they stand in the query (pairs that net/url
-	// would drop - bad escapes, a semicolon - are dropped)
+	// query parameters, in the order in which they stand in the query (pairs with bad
+	// escapes are dropped)
 	for _, pair := range strings.Split(rawQuery, "&") {
-		if pair == "" || strings.Contains(pair, ";") {
-			continue
+		if pair == "" {
+			continue // (a raw ';' is data: RFC 3986 allows it in a query)
 		}
 		k, v, _ := strings.Cut(pair, "=")
 		ku, e1 := url.QueryUnescape(k)
